@@ -111,8 +111,10 @@ func mkMsg(m *ref.Msg, item ast.ItemNode) (msg *ast.DataMessage, panicked string
 
 func init() {
 	h.Register(&h.Check{
-		ID:   "C02",
+		ID:          "C02",
+		MemLimitGiB: 12,
 		Rule: "every tree of the scope (atoms x shapes), every value of the 1- and 2-byte formats, F4 bit patterns, lane/bit/boundary patterns of wider formats, the header product and the incompleteness product are enumerated completely; each is built with the real factories and ToBytes() is compared byte-for-byte with the independent reference encoder; non-trivial = non-empty reference encoding compared (or a refusal that the reference also demands)",
+		WatchdogSec: 3600, // items of 16,777,215 elements legitimately take minutes; these checks have no hang oracle
 		Build: func(tier string, seed int64) []h.Space {
 			var sp []h.Space
 			N, D, W := 4, 3, 3
